@@ -278,7 +278,7 @@ def check_chunked(case):
         rows = all_hists(case, T)
         if not rows:
             continue
-        for contig in (True, False):
+        for contig in ((True, False) if T == case["T"] else (True,)):
             h = hist_tensor(rows, T, contig)
             for chunk in range(1, T + 3):
                 out = lm.calc_full_log_probs_chunked(h, dict(), chunk)
@@ -717,7 +717,7 @@ def reduced_tables(ctx, salt):
     for V, sos in _configs2():
         yield from enum_tables(V, sos, 1, three_state_upto=1, T=3)
         yield from enum_tables(V, sos, 2, stride=1 if not ctx.quick else 1, inf_variants=1, T=4)
-    stride = 24 if ctx.quick else 3
+    stride = 48 if ctx.quick else 3
     for V, sos in _configs2():
         yield from enum_tables(V, sos, 3, stride=stride, offset=ctx.seed + salt, inf_variants=1, T=4)
     rng = random.Random(ctx.seed * 104729 + salt)
@@ -777,12 +777,14 @@ def cases_wide(ctx):
                     if c > vt and shape != "spread":
                         continue
                     yield _wide(V, V if sos_out else 0, 2, [c], shape, 2, seed + s, T=2, B=32)
-    # level 2 + level 3 around 2**8 in a trigram model over few symbols
+    # level 2 + level 3 (3 + 4) around 2**8 in a trigram (4-gram) model over few symbols; with c = all tokens the pair is the widest of the table
     for s in range(253, 260):
         for shape in ("first", "last", "spread"):
-            for V, sos, c in ((16, 3, 6), (15, 15, 12), (20, -1, 3)):
-                yield _wide(V, sos, 3, [s - c, c], shape, 3, seed + s, B=32)
+            for V, sos, c in ((16, 3, 6), (15, 15, 12), (20, -1, 3), (16, 0, 16), (15, -1, 16), (8, 8, 9)):
+                if s - c <= (V + (0 if 0 <= sos < V else 1)) ** 2:
+                    yield _wide(V, sos, 3, [s - c, c], shape, 3, seed + s, B=32)
             yield _wide(12, 0, 4, [40, s - 9, 9], shape, 4, seed + s, B=24)
+            yield _wide(16, 5, 4, [16, s - 16, 16], shape, 4, seed + s, B=24)
     # plainly wide levels (> 255 nodes), ids wider than uint8 (V >= 255)
     for V, sos, N, sizes in [(20, 0, 2, [400]), (20, 20, 3, [300, 500]), (7, 2, 4, [49, 300, 600]), (300, 0, 2, [90]), (254, 254, 2, [300]),
                              (255, 3, 3, [260, 40]), (256, 256, 2, [255]), (40, 1, 3, [1600, 800])]:
@@ -794,6 +796,7 @@ def cases_wide(ctx):
     for s in range(32765, 32771):
         for shape in ("first", "last", "spread"):
             yield _wide(200, 0, 3, [s - 68, 68], shape, 3, seed + s, B=32, all_ctx=False)
+            yield _wide(199, -1, 3, [s - 200, 200], shape, 3, seed + s, B=32, all_ctx=False)
     yield _wide(190, 190, 2, [34000], "spread", 2, seed, T=2, B=32, reload=True)
     yield _wide(200, 5, 3, [33000, 34000], "spread", 2, seed, B=32, inf_every=5, reload=True)
     yield _wide(60, -1, 4, [3000, 33000, 2000], "spread", 2, seed, B=32)
@@ -834,7 +837,7 @@ def cases_arpa(ctx):
                             i += 1
     # two tokens, order 3: every subset, options walked
     sizes = [2, 4, 8]
-    stride = 2 if ctx.quick else 1
+    stride = 1
     for p in range(0, 1 << 14, 1):
         if any(not (p >> sum(sizes[:k]) & ((1 << sizes[k]) - 1)) for k in range(3)):
             continue
@@ -880,8 +883,8 @@ def cases_arpa_model(ctx):
 
 
 def _wrap_class(case, msg=""):
-    """some level k with (#k-grams + #(k+1)-grams) exactly 2**8 / 2**15 / 2**31 whose (k+1)-grams all
-    hang under the first k-gram in trie order (keys reversed, sos mapped to V)"""
+    """the widest pair of adjacent levels has (#k-grams + #(k+1)-grams) exactly 2**8 / 2**15 / 2**31 and its
+    (k+1)-grams all hang under the first k-gram in trie order (keys reversed, sos mapped to V)"""
     try:
         V, sos, N, tab = table_of(case)
     except Exception:
@@ -893,9 +896,12 @@ def _wrap_class(case, msg=""):
     for key in tab:
         for j in range(len(key)):  # the constructor adds every missing suffix
             levels[len(key) - j - 1].add(key[j:])
+    sums = [len(levels[k - 1]) + len(levels[k]) for k in range(1, N)]
+    if not sums or max(sums) not in (2 ** 8, 2 ** 15, 2 ** 31):
+        return False
     for k in range(1, N):
         lo, hi = levels[k - 1], levels[k]
-        if len(lo) + len(hi) not in (2 ** 8, 2 ** 15, 2 ** 31) or len(lo) < 2:
+        if len(lo) + len(hi) != max(sums) or len(lo) < 2:
             continue
         first = min(lo, key=lambda key: tuple(m(t) for t in key[::-1]))
         if all(key[1:] == first for key in hi):
@@ -911,8 +917,8 @@ FINDINGS = [
         "what": "LookupLanguageModel._build_trie picks the offsets integer width from max_potential_offset = len(level k)+len(level k+1)-1, "
                 "but the trailing childless nodes of level k are back-filled with offsets up to len(level k)+len(level k+1): when that sum is "
                 "exactly 2**8 (2**15) and only the first k-gram has children, offsets[...] wraps to 0 in uint8 (int16) and lookups raise IndexError / return wrong values",
-        "class": "exists k: #k-grams + #(k+1)-grams (after suffix closure; level 1 = all tokens) in {2**8, 2**15, 2**31} and every (k+1)-gram extends the "
-                 "first k-gram in trie order (reversed key, sos mapped to V)",
+        "class": "max over k of (#k-grams + #(k+1)-grams) (after suffix closure; level 1 = all tokens) is in {2**8, 2**15, 2**31}, and for a k attaining it "
+                 "every (k+1)-gram extends the first k-gram in trie order (reversed key, sos mapped to V)",
         "witness": {"V": 128, "sos": 0, "N": 2, "T": 2, "hseed": 0, "B": 32, "gen": {"sizes": [128], "shape": "first", "at": 2, "seed": 0}},
     }
 ]
@@ -942,9 +948,18 @@ def _sparse(case):
 def run_bounded(ctx):
     ctx.known_match.update(KNOWN_MATCH)
     q = ctx.quick
+    only = getattr(ctx, "only", None)
+
+    class _Sel:  # honour ./check --only (development aid): skip clauses whose name matches no given prefix
+        def bounded(self, name, *a, **k):
+            if only and not any(name.startswith(p) for p in only):
+                return None
+            return _ctx.bounded(name, *a, **k)
+
+    _ctx, ctxb = ctx, _Sel()
     fn = ["_lm.LookupLanguageModel.__init__", "_lm.LookupLanguageModel._build_trie", "_lm._lookup_calc_idx_log_probs",
           "_lm.LookupLanguageModel.calc_idx_log_probs", "_lm.SequentialLanguageModel.forward"]
-    ctx.bounded("C06.katz.full", check_full, cases_full(ctx),
+    ctxb.bounded("C06.katz.full", check_full, cases_full(ctx),
                 bound="EXHAUSTIVE: 1 symbol (V=1,sos=0) orders 1..5 x {absent,finite,-inf} per gram; 2 symbols in all ((V,sos) in (2,0),(1,1),(2,1),(1,-1)) "
                       "orders 1..2 x {absent,finite,-inf} per gram; order 3: every subset of the 14 grams for (2,0),(1,1)%s, each all-finite and with %d hashed -inf pattern(s); "
                       "3 symbols, order 2: every subset of the 12 grams for %s; every history of length 0..N+1 (order 3: 0..4) over vocabulary plus sos when outside it. "
@@ -955,23 +970,23 @@ def run_bounded(ctx):
                 text="lm(hist)[t, b, w] == Katz back-off recursion on the dict (present-and-finite -> listed value; else back-off of the context (0 if absent) + value for "
                      "the context minus its oldest token; left-padded with sos), for every prefix of every history",
                 nontrivial=_sparse, chunk=256, functions=fn)
-    ctx.bounded("C06.katz.chunked", check_chunked, cases_chunked(ctx),
-                bound="tables: 1 symbol orders 1..4 three-state; 2 symbols order 1 three-state, order 2 every subset (+ -inf pattern), order 3 every %d-th subset; %d sampled order 2..4 "
+    ctxb.bounded("C06.katz.chunked", check_chunked, cases_chunked(ctx),
+                bound="tables: 1 symbol orders 1..4 three-state; 2 symbols order 1 three-state, order 2 every subset (+ -inf pattern), order 3 every %d-th subset of each (V,sos); %d sampled order 2..4 "
                       "tables, %d random-float tables; per table EVERY T in 0..4 (0..5 for sampled order 4), EVERY chunk_size in 1..T+2, contiguous and transposed-view hist, all histories of length T"
-                      % (24 if q else 3, 250 if q else 6000, 100 if q else 3000),
+                      % (48 if q else 3, 250 if q else 6000, 100 if q else 3000),
                 text="calc_full_log_probs_chunked(hist, {}, chunk_size) == oracle at all positions, for every chunk size",
                 nontrivial=_sparse, chunk=16, functions=["_lm.LookupLanguageModel.calc_full_log_probs_chunked", "_lm._lookup_calc_idx_log_probs"])
-    ctx.bounded("C06.katz.idx", check_idx, cases_idx(ctx),
+    ctxb.bounded("C06.katz.idx", check_idx, cases_idx(ctx),
                 bound="same table set as C06.katz.chunked; per table: EVERY python-int idx in -T-1..T, 0-dim and 1-element tensor idx 0..T, per-element idx: all (history, idx) pairs with idx >= m in "
                       "one batch for every m in 0..T (both batch orders across cases), batch-of-one with 1-element idx; T <= 4",
                 text="lm(hist, idx=...)[0][b] == oracle after hist[:idx[b], b]",
                 nontrivial=_sparse, chunk=16, functions=["_lm.SequentialLanguageModel.forward", "_lm._lookup_calc_idx_log_probs"])
-    ctx.bounded("C06.katz.reload", check_reload, cases_reload(ctx),
+    ctxb.bounded("C06.katz.reload", check_reload, cases_reload(ctx),
                 bound="same table set as C06.katz.chunked; state_dict -> torch.save -> torch.load -> load_state_dict into (i) LookupLanguageModel(V, sos) and (ii) an instance "
                       "built from a different table (order 1..3, dense or single-gram); then full, chunked(2, T+1) and per-element idx outputs",
                 text="a freshly constructed instance that loads the saved state gives the oracle's numbers (and bit-identical output, max_ngram inferred)",
                 nontrivial=_sparse, chunk=32, functions=["_lm.LookupLanguageModel.load_state_dict", "_lm.LookupLanguageModel._infer_max_direct_descendants"])
-    ctx.bounded("C06.katz.wide_levels", check_wide, cases_wide(ctx),
+    ctxb.bounded("C06.katz.wide_levels", check_wide, cases_wide(ctx),
                 bound="generated closed tables: (#k-grams + #(k+1)-grams) in 253..259 for k=1 (order 2, V up to 239), k=2 (order 3), k=3 (order 4) with the (k+1)-grams all under the "
                       "first / last k-gram or spread; levels of 300..1600 nodes; V in {254,255,256,300} (ids wider than uint8)%s; 32 listed-context + 16 random histories of length T<=3 (+ all "
                       "contexts for order 2); full, chunked, per-element idx, reload" % (
@@ -979,14 +994,14 @@ def run_bounded(ctx):
                 text="same contract as C06.katz.full on tables that cross the integer widths chosen for offsets/ids (bounded stand-in for C06.trie.offset_types)",
                 chunk=1, functions=["_lm.LookupLanguageModel._build_trie"])
     fa = ["_parsing.parse_arpa_lm"]
-    ctx.bounded("C06.arpa.exact", check_arpa, cases_arpa(ctx),
+    ctxb.bounded("C06.arpa.exact", check_arpa, cases_arpa(ctx),
                 bound="EXHAUSTIVE: tokens {a,b}, orders 1..2, every choice of listed n-grams (each order non-empty) x to_base_e in {default,False,True} x token2id in {none,identity-like,"
-                      "sparse ids} x tab/space x explicit/partly-implicit back-offs; order 3: every %ssubset with the options walked. SAMPLED: %d files over 1..7 tokens "
+                      "sparse ids} x tab/space x explicit/partly-implicit back-offs; order 3: every subset with the options walked. SAMPLED: %d files over 1..7 tokens "
                       "(incl. <s>, </s>, a numeral, an apostrophe, a non-ASCII token), orders 1..4, ftype float/np.float64/np.float32, path or stream, preamble, shuffled sections"
-                      % ("2nd " if q else "", 4000 if q else 60000),
+                      % (4000 if q else 60000),
                 text="parse_arpa_lm(file) == the entries written (keys exactly; values == float(text) in base 10, float(text)*ln10 within 1e-14 rel. in base e; missing back-off = 0; "
                      "highest order plain floats)", chunk=256, functions=fa)
-    ctx.bounded("C06.arpa.model", check_arpa_model, cases_arpa_model(ctx),
+    ctxb.bounded("C06.arpa.model", check_arpa_model, cases_arpa_model(ctx),
                 bound="%d sampled ARPA files over 2..3 tokens, orders 1..3, sos token in or out of the vocabulary, base e or 10; all histories of length 0..3" % (1500 if q else 20000),
                 text="ARPA text -> parse_arpa_lm -> LookupLanguageModel gives the Katz recursion on the listed entries (tolerance 2e-5)",
                 chunk=64, functions=fa + fn[:2])
